@@ -6,7 +6,9 @@ package main
 import (
 	"math"
 	"math/rand"
+	"os"
 	"sort"
+	"time"
 
 	"github.com/unixpickle/model3d/model3d"
 )
@@ -174,7 +176,8 @@ func init() {
 						rec.Nbrs = append(rec.Nbrs, edNbr{F: f + 1, Fs: ids(m.Neighbors(tris[f]))})
 					}
 				}
-				rec.Panic = protect(func() {
+				var outcome string
+				outcome, rec.Panic = withDeadline(120*time.Second, func() {
 					// first round of queries: builds the lazy index
 					for _, v := range m.VertexSlice() {
 						nameOf(v)
@@ -184,6 +187,18 @@ func init() {
 					// second round on the same object
 					observe(&rec, m)
 				})
+				if outcome == "hang" {
+					// the abandoned goroutine may still be writing to rec: report a fresh record and stop
+					// here (the runaway call keeps a processor busy); the records so far are judged
+					rec = edRec{ID: id, Site: ed, Mesh: meshName, F: [][]int{}, VSlice: []int{}, Find1: []edFind1{}, Find2: []edFind2{}, Nbrs: []edNbr{},
+						Panic: "did not terminate within 120s"}
+					out.write(rec)
+					stats["records"]++
+					stats["aborted_after_hang"] = 1
+					out.close()
+					writeJSONFile(a.str("stats", "stats.json"), stats)
+					os.Exit(0)
+				}
 				out.write(rec)
 				stats["records"]++
 				stats["nonempty"]++
